@@ -66,9 +66,11 @@ type catalog struct {
 		Pre []string `json:"pre"`
 	} `json:"fam"`
 	Lk      map[string][]catLock `json:"lk"`
-	Kvnames []string             `json:"kvnames"`
-	KvPool  []string             `json:"kvpool"`
-	TokPool []string             `json:"tokpool"`
+	Kvnames  []string             `json:"kvnames"`
+	Mixnames []string             `json:"mixnames"`
+	KvPool   []string             `json:"kvpool"`
+	TokPool  []string             `json:"tokpool"`
+	MixPool  []string             `json:"mixpool"`
 }
 
 func loadCatalog(path string) (*catalog, error) {
@@ -88,6 +90,13 @@ func loadCatalog(path string) (*catalog, error) {
 }
 
 func (c *catalog) famOf(sc []string) string {
+	for _, r := range sc { // SpinLock!FamOf: a mixed transaction among the requests makes the family
+		for _, n := range c.Mixnames {
+			if n == r {
+				return "mix"
+			}
+		}
+	}
 	for _, n := range c.Kvnames {
 		if n == sc[0] {
 			return "kv"
@@ -145,7 +154,11 @@ func addrOf(name string) string {
 // tokenRank is the order in which the lock keys of token transactions sort in the specification
 // (SpinLock!TxRank); the concretiser signs each of them until the raw txids are ordered alike, so that
 // ExtractLockKeys (sorted by the raw key string) yields the specification's order.
-var tokenRank = []string{"t0", "t1", "t2", "t3", "t4", "t8", "ta"}
+var tokenRank = []string{"t0", "t1", "t2", "t3", "t4", "t8", "ta", "m1", "m2", "m3", "m4", "m5"}
+
+// kvFirstByte: the raw lock key of a contract key is "<bucket>/<key>"; the transactions with outputs get ids on ONE
+// side of it (SpinLock!KvRank): root id < keys < other ids (gFirst), or other ids < keys < root id.
+var kvFirstByte = int(kvBucket[0])
 
 func newWorld(cat *catalog, checkKeys bool) (*world, error) {
 	pre := map[string]string{}
@@ -174,7 +187,10 @@ func newWorld(cat *catalog, checkKeys bool) (*world, error) {
 	w.rootTx = rtx
 	w.txs["g"] = rtx
 	w.names[hex.EncodeToString(rtx.Txid)] = "g"
-	w.gFirst = rtx.Txid[0] < 128
+	w.gFirst = int(rtx.Txid[0]) < kvFirstByte
+	if int(rtx.Txid[0]) == kvFirstByte {
+		return nil, fmt.Errorf("the root transaction's id starts with the byte of the contract bucket: lock key order not modelled")
+	}
 	for _, n := range tokenRank {
 		if _, ok := cat.Tx[n]; !ok {
 			return nil, fmt.Errorf("catalogue lacks token transaction %s", n)
@@ -205,12 +221,11 @@ func newWorld(cat *catalog, checkKeys bool) (*world, error) {
 // slot returns the range of first txid bytes allowed for the token transaction of rank i (0-based).
 func (w *world) slot(i int) (lo, hi int) {
 	n := len(tokenRank)
-	g := int(w.rootTx.Txid[0])
 	if w.gFirst {
-		width := (255 - g) / n
-		return g + 1 + i*width, g + (i+1)*width
+		width := (255 - kvFirstByte) / n
+		return kvFirstByte + 1 + i*width, kvFirstByte + (i+1)*width
 	}
-	width := g / n
+	width := kvFirstByte / n
 	return i * width, (i+1)*width - 1
 }
 
@@ -411,6 +426,7 @@ type sim struct {
 	base    *pb.InternalBlock // block 1 = [award, account creation]: the tip the requests start on
 	blk2    *pb.InternalBlock
 	recDone chan struct{} // one token per finished recovery of a walk
+	bal0    []int64       // State.GetBalance of every party BEFORE the requests (fills the node's balance cache)
 }
 
 func staleErr(err error) bool {
@@ -467,6 +483,7 @@ func newSim(w *world, name string, sc []string) (*sim, error) {
 			return nil, fmt.Errorf("prelude transaction %s was not admitted: %s %s", p, c, e)
 		}
 	}
+	s.bal0 = s.balances()
 	for _, r := range sc {
 		if rq := w.cat.Req[r]; exclusive(rq.Ty) && s.blk2 == nil {
 			if err := s.mkBlock(rq.B); err != nil {
@@ -530,6 +547,20 @@ func (s *sim) projectAfterHang() obs {
 	return o
 }
 
+// balances: State.GetBalance of every party of the catalogue (answered from the node's balance cache once filled).
+func (s *sim) balances() []int64 {
+	out := []int64{}
+	for _, a := range s.w.cat.Addrs {
+		b, err := s.node.State.GetBalance(addrOf(a))
+		if err != nil || !b.IsInt64() {
+			out = append(out, -1)
+		} else {
+			out = append(out, b.Int64())
+		}
+	}
+	return out
+}
+
 // project issues the public queries the property names.
 func (s *sim) project() obs {
 	st := s.node.State
@@ -546,14 +577,7 @@ func (s *sim) project() obs {
 	if t := st.GetTotal(); t.IsInt64() && st.GetMeta().UtxoTotal == t.String() {
 		o.Total = t.Int64()
 	}
-	for _, a := range s.w.cat.Addrs {
-		b, err := st.GetBalance(addrOf(a))
-		if err != nil || !b.IsInt64() {
-			o.Bal = append(o.Bal, -1)
-		} else {
-			o.Bal = append(o.Bal, b.Int64())
-		}
-	}
+	o.Bal = s.balances()
 	addrName := map[string]string{}
 	for _, a := range s.w.cat.Addrs {
 		addrName[addrOf(a)] = a
